@@ -1,4 +1,5 @@
 import PncModel.Arr
+import PncModel.Generated.NamespaceOrder
 /-
 File: the netCDF-like file model (dimensions, variables with nested data, attribute names) and the
 structural operations of `PseudoNetCDFFile` (core/_files.py) — properties C01–C06.
@@ -414,22 +415,38 @@ def fileBinds (f : File) : List (String × Bound) := f.vars.map (fun v => (v.nam
 
 def others (tag : String) (ns : List String) : List (String × Bound) := ns.map (fun n => (n, Bound.other tag))
 
+/-- what one binding statement does to the namespace -/
+def nsStep (f : File) (helpers consts : List String) (e : Env) : NsStep → Env
+  | .fileVars => e.update (fileBinds f)
+  | .helpers => e.update (others "helper" helpers)
+  | .consts => e.update (others "const" consts)
+  | .fillAttrs => e.fill (others "attr" f.attrs)
+  | .attrs => e.update (others "attr" f.attrs)
+  | .set n => e.set n (.other "module")
+  | .copyTargets => e
+  | .unknown _ => e
+
+/-- the names a list of statements binds to modules and the like (`vardict['np'] = np`) -/
+def reservedOf : List NsStep → List String
+  | [] => []
+  | .set n :: rest => n :: reservedOf rest
+  | _ :: rest => reservedOf rest
+
 /-- names `pncexpr` binds to modules / the input file after everything else -/
-def pncexprReserved : List String := ["ifile", "infile", "np", "datetime"]
+def pncexprReserved : List String := reservedOf Generated.pncexprSteps
 
 /-- names `eval` binds after the variables and attributes -/
-def evalReserved : List String := ["np", "self", "outf"]
+def evalReserved : List String := reservedOf Generated.evalSteps
 
-/-- the namespace of `pncexpr(expr, ifile)`: the helper functions of `userfuncs`, the constants of scipy, then the file's
-variables (a variable named like a constant is the file's variable), the reserved names, and the global attributes whose
-names are still free -/
+/-- the namespace of `pncexpr(expr, ifile)`: the statements of the function, in the order the translator finds them in
+the source (`Generated.pncexprSteps`): helper functions, scipy's constants, then the file's variables (a variable named like
+a constant is the file's variable), the reserved names, and the global attributes whose names are still free -/
 def pncexprEnv (f : File) (helpers consts : List String) : Env :=
-  (((((Env.update [] (fileBinds f)).update (others "helper" helpers)).update (others "const" consts)).update
-      (fileBinds f)).update (others "module" pncexprReserved)).fill (others "attr" f.attrs)
+  Generated.pncexprSteps.foldl (nsStep f helpers consts) []
 
-/-- the namespace of `f.eval(expr)`: the variables, the attributes whose names are free, then the reserved names -/
-def evalEnv (f : File) : Env :=
-  ((Env.update [] (fileBinds f)).fill (others "attr" f.attrs)).update (others "module" evalReserved)
+/-- the namespace of `f.eval(expr)` (`Generated.evalSteps`): the variables, the attributes whose names are free, then the
+reserved names -/
+def evalEnv (f : File) : Env := Generated.evalSteps.foldl (nsStep f [] []) []
 
 /-- value of an expression, names looked up in a namespace; a name bound to something that is not a variable of the file
 has no cell-wise value in this model -/
